@@ -295,6 +295,13 @@ pub fn block(kind: &str, rng: &mut Rng, u: usize) -> (String, String) {
                     ));
                     body.push_str(&format!("sink += (int)ba{u}_{g}_{k}.Load<uint>(0);\n"));
                 }
+                // ... and an array of them
+                if rng.chance(1, 3) {
+                    decl.push_str(&format!(
+                        "[[rssl::bind_group({g})]] const BufferAddress baa{u}_{g}[2];\n"
+                    ));
+                    body.push_str(&format!("sink += (int)baa{u}_{g}[1].Load<uint>(4);\n"));
+                }
             }
         }
         "call_ring" => {
@@ -723,6 +730,13 @@ pub const TAILS: &[&str] = &[
             "static int step;\nstatic int uses_step = step;\n",
             "void fn_then_global() {}\nstatic int fn_then_global;\nstatic int uses_ftg = fn_then_global;\n",
             "[[rssl::bindless]] cbuffer BindlessCB { float bcb_a; }\n",
+            // a struct with several base types: inherited members keep the order of the base list
+            "struct MbA { int mb_a; };\nstruct MbB { float mb_b; };\nstruct MbC { uint mb_c; };\nstruct MbD { float2 mb_d; };\nstruct MbAll : MbA, MbB, MbC, MbD { int mb_own; };\nint mb_f(MbAll s) { return s.mb_a + (int)s.mb_b + (int)s.mb_c + (int)s.mb_d.x + s.mb_own; }\n",
+            // untyped literals at the edge of what can be written, as template arguments
+            "template<int N> int ce_t() { return N; }\nstatic const int ce_u = ce_t<~18446744073709551615>();\n",
+            "template<int N> int ce_t2() { return N; }\nvoid ce_f() { int q = ce_t2<0 - 18446744073709551615 - 1>(); int r = ce_t2<18446744073709551615>(); }\n",
+            // a long run of one bracket character
+            "static const int ra = 1 >>>>>>>>>>>>>>>>>>>>>>>>>>>>>>>>>>>>>>>>>>>>>>>> 2;\n",
             // two string literals next to each other (not a thing in RSSL today: whatever is
             // decided about them must not depend on what separates them)
             "void str_cs() {}\nPipeline StrP { ComputeShader = str_cs; RenderTargetFormat0 = \"R8G8B8A8\" \"_UNORM\"; }\n",
